@@ -117,9 +117,20 @@ def generate(tier, rng):
                 c = rng.choice([rng.randint(lo, hi), rng.randint(lo, hi), 0, 1, -1 if signed else 1, lo, hi])
                 j = rng.randint(54, 63) - max(abs(c).bit_length(), 1)
                 vals.append((Fraction(c) + rng.choice([1, -1]) * Fraction(1, 2 ** j)) / Fraction(2) ** f)
-            car = rng.choice(['np.longdouble', 'fxp']) if k == 1 else rng.choice(['arr.longdouble', 'arr.fxp'])
+            car = rng.choice(['np.longdouble', 'fxp', 'decimal']) if k == 1 else rng.choice(['arr.longdouble', 'arr.fxp'])
             if all(G.in_c01_domain(n, f, v) for v in vals) and C.ok_for(car, vals):
                 yield _r5(signed, n, f, r, o, car, rng.choice(C.ROUTES if k == 1 else ('ctor', 'call', 'setval', 'tmpl')), vals)
+    # decimal.Decimal values a hair (far less than the 28 digits of the default decimal context resolve) off a code or off a tie: Decimal
+    # holds them exactly, and so must the store (rounded once, by the configured rule)
+    for _ in range(200 if tier == 'quick' else 4000):
+        signed, n, f = G.rand_format(rng, max_word=30)
+        r, o = rng.choice(ROUNDS), rng.choice(OVFS)
+        lo, hi = lims(signed, n)
+        c = rng.choice([rng.randint(lo, hi), 0, 1, -1 if signed else 1, lo, hi])
+        base_ = Fraction(2 * c + rng.choice([0, 0, 1]), 2)           # a code, or the tie between two codes
+        v = (base_ + rng.choice([1, -1]) * Fraction(1, 2 ** rng.randint(100, 130))) / Fraction(2) ** f
+        if G.in_c01_domain(n, f, v) and C.ok_for('decimal', [v]):
+            yield _r5(signed, n, f, r, o, 'decimal', rng.choice(C.ROUTES), [v])
     # values far below one LSB, down to subnormal doubles, into formats with a negative fraction length: floor and ceil depend on the
     # sign of a value whose scaled image underflows (scalars of every kind, and arrays)
     for _ in range(200 if tier == 'quick' else 4000):
